@@ -136,7 +136,7 @@ def run(tier, seed):
             witness_jobs.append({"cfg": kbd, "params": params, "tag": "w:" + name, "scripts": scripts})
         # binding C(iii): random histories beyond the model's bounds (length, pending events)
         n = 40 if tier == "quick" else 300
-        scripts = [rand_history(rng, keys, rng.randint(5, 60 if tier == "quick" else 300), [0, 0, 1, 1, 2], tail=6)
+        scripts = [rand_history(rng, keys, rng.randint(5, 60 if tier == "quick" else 300), [0, 1, 1, 1, 2, 3], tail=6)
                    for _ in range(n)]
         jobs_random.append({"cfg": kbd, "params": params, "tag": "r:" + name, "scripts": scripts})
     if tier == "thorough":
@@ -147,7 +147,7 @@ def run(tier, seed):
             desc = random_desc(rng, ks)
             kbd = cfgdesc.render_kbd(desc)
             codes = [cfgdesc.code(k) for k in list(ks) + list(desc.get("unmapped", []))]
-            scripts = [rand_history(rng, codes, rng.randint(5, 300), [0, 0, 1, 1, 2], tail=6) for _ in range(20)]
+            scripts = [rand_history(rng, codes, rng.randint(5, 300), [0, 1, 1, 1, 2, 3], tail=6) for _ in range(20)]
             jobs_random.append({"cfg": kbd, "params": cfgdesc.c04_params(desc), "tag": "rc:%d" % i, "scripts": scripts})
     for label, jobs in (("witness", witness_jobs), ("random", jobs_random)):
         if not jobs:
@@ -157,7 +157,7 @@ def run(tier, seed):
         for e in errs:
             j, s = script_of(jobs, e["job"], 0)
             flow.classify(res, pid, e["err"], e["err"] + " cfg=" + j["cfg"],
-                          {"property": pid, "cfg": j["cfg"], "params": j["params"], "script": s, "err": e["err"]},
+                          {"property": pid, "cfg": j["cfg"], "params": j["params"], "script": s, "err": e["err"], "monitor": "P_C04"},
                           "%s_%d" % (label, len(res.violations)))
         if label == "random" and jobs:
             res.samples.append({"random_history": jobs[0]["scripts"][0][:30], "cfg": jobs[0]["cfg"]})
